@@ -13,7 +13,9 @@
               appender, ToString() and Write(); specification text == standard library text (oracle agreement);
               (B) sweeps against the standard library; (C) every TLC behaviour replayed with the cursor read after every
               step; (D) String()/FastLog of valid views and table entries under recover; (E) lines built concurrently by
-              several goroutines compared with their reference text.
+              several goroutines compared with their reference text (with failing Write() calls in between);
+              (F) spec/LogLinePool.tla: 3-4 lines alive at once built in every interleaving, finished by ToString / Write /
+              Write with a failing writer; each must be the concatenation of its own fields.
 """
 import os
 
@@ -100,12 +102,26 @@ def run(ctx):
                                   (r.violated, r.out[-2000:]))
         states += r.distinct
         transitions += r.generated
+    # several lines alive at once (spec/LogLinePool.tla): every interleaving of NLines lines and the three ways to finish
+    pool = os.path.join(ctx.scratch, "logpool.ndjson")
+    r, npool = cl.tlc_vectors(ctx, "LogLinePool", "LogLinePool_%s.cfg" % tier, pool, timeout=1800, seed=ctx.seed, heap="6g")
+    cov["tlc"]["LogLinePool_%s" % tier] = r.summary()
+    states += r.distinct
+    transitions += r.generated
+    if npool == 0:
+        raise vlib.InfraError("TLC exported no pool behaviours")
+    # vacuity guard: with a second Put on a failed Write the property-level invariant must fail in the model
+    r = vlib.tlc(ctx, "LogLinePool", cfg="LogLinePool_double.cfg", workers=2, timeout=300, heap="2g", jprops=cl.MEMQ)
+    cov["tlc"]["LogLinePool_double (must violate)"] = r.summary()
+    if r.violated != "C20_LinesIndependent":
+        raise vlib.InfraError("LogLinePool with two Puts on a failed Write does not violate C20_LinesIndependent: the model is blind")
     # the real code
-    s = cl.drive(ctx, binary, ["-vectors", vec, "-behaviours", beh], timeout=1200)
+    s = cl.drive(ctx, binary, ["-vectors", vec, "-behaviours", beh, "-pool", pool], timeout=1200)
     if s.get("oracle_mismatch"):
         raise vlib.InfraError("specification and standard library disagree (oracle invalid): %s" % s["oracle_mismatch"][:3])
-    if s["vectors"] != nvec or s["behaviours"] != nbeh:
-        raise vlib.InfraError("driver consumed %d/%d vectors, %d/%d behaviours" % (s["vectors"], nvec, s["behaviours"], nbeh))
+    if s["vectors"] != nvec or s["behaviours"] != nbeh or s["pool_behaviours"] != npool:
+        raise vlib.InfraError("driver consumed %d/%d vectors, %d/%d behaviours, %d/%d interleavings" %
+                              (s["vectors"], nvec, s["behaviours"], nbeh, s["pool_behaviours"], npool))
     seen = cl.report_failures(ctx, binary, s)
     sweeps = sum(s["sweep_by_kind"].values())
     cov.update({
@@ -121,11 +137,13 @@ def run(ctx):
         "behaviours_model_predicts_panic": s["behaviours_model_predicts_panic"],
         "behaviours_real_panic": s["behaviours_real_panic"],
         "behaviours_mechanism_conformant": s["behaviours_mechanism_conformant"],
+        "interleavings_of_several_lines_replayed": s["pool_behaviours"],
+        "interleaving_steps": s["pool_behaviour_steps"],
         "lines_built_concurrently": s["concurrent_lines"],
         "views_rendered": s["views_rendered"],
         "views_by_type": s["views_by_type"],
         "failure_counts": s["failure_counts"],
-        "evaluations": nvec + sweeps + s["behaviours"] + s["views_rendered"] + s["concurrent_lines"],
+        "evaluations": nvec + sweeps + s["behaviours"] + s["views_rendered"] + s["concurrent_lines"] + s["pool_behaviours"],
         "distinct_nontrivial": s["distinct_cases"],
         "rule": "one evaluation = one TLC vector rendered by the real appender(s), one swept value compared with the standard "
                 "library, one TLC behaviour replayed on a real Line, or one view rendered; distinct_nontrivial = distinct "
